@@ -231,6 +231,9 @@ class BitStringPayloadDecoder(AbstractSimplePayloadDecoder):
                 if isinstance(component, SubstrateUnderrunError):
                     yield component
 
+            if not component:
+                raise error.PyAsn1Error('Empty BIT STRING segment')
+
             trailingBits = oct2int(component[0])
             if trailingBits > 7:
                 raise error.PyAsn1Error(
@@ -276,6 +279,9 @@ class BitStringPayloadDecoder(AbstractSimplePayloadDecoder):
 
             if component is eoo.endOfOctets:
                 break
+
+            if not component:
+                raise error.PyAsn1Error('Empty BIT STRING segment')
 
             trailingBits = oct2int(component[0])
             if trailingBits > 7:
